@@ -29,7 +29,10 @@ RULE = (
     "by Operator) and restriction dicts (every combination of 'absent or any subset of its grids, "
     "including the empty one' over the equations [quick and grid G2: at most 2 equations present]; "
     "keys by name and by Operator; keys inserted in reversed set order; grids passed in reversed "
-    "order); column requests = None / md-variables / atomic variables in reversed creation order / "
+    "order; plus grid lists with REPEATED entries standing for a proper subset of the equation's "
+    "grids: every multiset with as many entries as the equation has grids, in 3 orders, and lists "
+    "with more / fewer entries, expected rows = those of the SET of grids in the equation's own "
+    "grid order); column requests = None / md-variables / atomic variables in reversed creation order / "
     "names / empty list; state given or taken from storage; request space = (all rows x 4 column "
     "requests x 2 states) + (3 row requests x all column subsets x 2 states); every request is "
     "assembled with and without Jacobian; non-trivial = rows or columns are a proper restriction or "
@@ -101,6 +104,55 @@ def row_requests(grid, okey, rich):
                     keys = ("name",) if (len(out) % 2) else ("op",)
                 for key in keys:
                     out.append({"t": "dict", "items": items, "key": key})
+    out.extend(repeated_grid_requests(grid, order, spec))
+    return out
+
+
+def repeated_grid_lists(ranks):
+    """Grid lists with REPEATED entries denoting a proper, non-empty subset P of the
+    equation's grids: every multiset with support exactly P and as many entries as the
+    equation has grids (several orders), plus one entry more / fewer than that."""
+    ranks = sorted(ranks)
+    k = len(ranks)
+    out = []
+    for n in range(1, k):
+        for P in itertools.combinations(ranks, n):
+            for m in itertools.combinations_with_replacement(P, k):
+                if set(m) != set(P):
+                    continue
+                m = list(m)
+                variants = [m, m[::-1], m[1::2] + m[0::2]]
+                for v in variants:
+                    if v not in out:
+                        out.append(v)
+            longer = list(P) + list(P) + [P[0]] * max(0, k + 1 - 2 * n)  # k+1 or more entries
+            if longer not in out:
+                out.append(longer)
+            if n + 1 != k:
+                shorter = [P[-1]] + list(P)  # one repeat, fewer/more entries than k
+                if shorter not in out:
+                    out.append(shorter)
+    # repeats covering ALL grids of the equation (more entries than grids)
+    out.append(ranks[::-1] + ranks[:1])
+    return out
+
+
+def repeated_grid_requests(grid, order, spec):
+    out = []
+    singles = {}
+    for e in order:
+        ranks = sorted(spec[e][0])
+        if len(ranks) < 2:
+            out.append({"t": "dict", "items": [[e, ranks + ranks]], "key": "name"})
+            continue
+        singles[e] = repeated_grid_lists(ranks)
+        for i, g in enumerate(singles[e]):
+            out.append({"t": "dict", "items": [[e, g]], "key": "name" if i % 2 == 0 else "op"})
+    # two equations with repeated lists in one request (reversed set order of the keys)
+    es = [e for e in order if e in singles]
+    for e1, e2 in itertools.combinations(es, 2):
+        for j in range(0, min(len(singles[e1]), len(singles[e2])), 5):
+            out.append({"t": "dict", "items": [[e2, singles[e2][-1 - j]], [e1, singles[e1][j]]], "key": "name"})
     return out
 
 
@@ -309,8 +361,9 @@ def run_case(case) -> Outcome:
                 nontrivial = restricted_rows or reordered or len(cidx) < S.N
                 neq = len(rreq.get("eqs", rreq.get("items", S.order)))
                 empty = rreq["t"] == "dict" and any(len(S.local_rows(e, g)) == 0 for e, g in rreq["items"])
+                repeated = rreq["t"] == "dict" and any(len(set(g)) < len(g) for e, g in rreq["items"])
                 cls = "%s/%s/neq%d%s%s/cols:%s/%s" % (
-                    rreq["t"], rreq.get("key", "-"), min(neq, 3), "/empty-block" if empty else "",
+                    rreq["t"], rreq.get("key", "-"), min(neq, 3), ("/empty-block" if empty else "") + ("/repeated-grids" if repeated else ""),
                     "/reordered" if reordered else "", creq["t"] + ("-all" if len(cidx) == S.N else "-sub" if len(cidx) else "-none"), st)
                 if bad is not None:
                     out.violate(bad[0], **desc, **bad[1])
